@@ -20,7 +20,7 @@ import FlowCal.transform  # noqa
 import FlowCal.plot  # noqa
 
 RES = [5, 256, 1000]
-OVR = {'none': {}, 'T': {'T': 5000.0}, 'M': {'M': 5.0}, 'W': {'W': 0.5}, 'TMW': {'T': 20000.0, 'M': 4.0, 'W': 0.3},
+OVR = {'none': {}, 'T': {'T': 5000.0}, 'Tbig': {'T': 1e6}, 'M': {'M': 5.0}, 'W': {'W': 0.5}, 'TMW': {'T': 20000.0, 'M': 4.0, 'W': 0.3},
        'Tneg': {'T': -5.0}, 'Mzero': {'M': 0.0}, 'Wneg': {'W': -0.1}, 'Wzero': {'W': 0.0}}
 
 
